@@ -86,6 +86,7 @@ func allScenarios() []*Scenario {
 	ps("sub-sub-cancel-pub", []string{"c1", "c2", "", ""}, th(c("SUBSCRIBE", "ch")), th(c("SUBSCRIBE", "ch")), th(c("@cancel", "c2")), th(c("PUBLISH", "ch", "m1")))
 	tier := os.Getenv("VERIF_TIER")
 	s = append(s, genPairScenarios(tier)...)
+	s = append(s, genMultiPairScenarios(tier)...)
 	scenarioCache = s
 	return s
 }
